@@ -551,6 +551,41 @@ func c04(x *mon.Ctx) {
 		}
 		x.Require("level-shape/"+sh, 0, 12, 18) // acceptable only through the well-formed UpToDate second level (refusing the whole document is allowed too)
 	}
+	// ---- FMSPC / PCE-ID of the TCB Info are hex identifiers of fixed width: the certificate's value followed (or preceded) by
+	//      anything — an odd digit, non-hex characters, white space, a second value — is another value, in either letter case
+	{
+		r := x.Rand("identifier-tail")
+		w0 := world.Honest(r, world.HonestOpts{Shape: world.QuoteShape{AuthLen: 32}})
+		n := 0
+		for _, field := range []string{"fmspc", "pceId"} {
+			for _, up := range []bool{false, true} {
+				for _, deco := range []struct{ pre, post string }{{"", "0"}, {"", "00"}, {"", "zz"}, {"", " "}, {"", `\n`}, {"", ",00906ed50000"}, {"", "g"}, {" ", ""}, {"0x", ""}, {"00", ""}, {"", `\u0000`}, {"", "0a9"}} {
+					w := w0.Clone()
+					val := hex.EncodeToString(w.P.FMSPC[:])
+					if field == "pceId" {
+						val = hex.EncodeToString(w.P.PceID[:])
+					}
+					if up {
+						val = strings.ToUpper(val)
+					}
+					if field == "fmspc" {
+						w.Tcb.Fmspc = deco.pre + val + deco.post
+					} else {
+						w.Tcb.PceID = deco.pre + val + deco.post
+					}
+					w.Resign()
+					c := w.Case(world.LColl, "identifier-with-other-characters", fmt.Sprintf("%s=%q+value+%q/upper=%v", field, deco.pre, deco.post, up))
+					c.Expect, c.ShadowSkip = "reject", true
+					check(x, n, c)
+					n++
+				}
+			}
+		}
+		c := w0.Case(world.LColl, "identifier-with-other-characters", "control")
+		c.Expect = "accept"
+		check(x, n, c)
+		x.Require("identifier-with-other-characters", 1, n, n+1)
+	}
 	// ---- a PCK certificate whose SVNs are NEGATIVE DER integers (02 01 C8 is -56, not 200; 02 02 FF 38 is -200): such a
 	//      platform meets no level — the certificate is malformed — whatever the levels ask for
 	{
